@@ -102,6 +102,8 @@ class ModelView:
             return SSeq.of(items, v.kind)
         if isinstance(v, (Ref, dict)):
             return v
+        if type(v).__name__ in ('ClassVal',):
+            return v
         if isinstance(v, list):
             return [self.value(x) for x in v]
         raise SymErr('cannot concretise %r' % (v,))
@@ -138,6 +140,8 @@ def tree(v, st, seen=None):
         return {'t': 'tuple', 'v': [tree(x, st, seen) for x in v]}
     if isinstance(v, dict):
         return {'t': 'dict', 'v': {k: tree(x, st, seen) for k, x in v.items()}}
+    if type(v).__name__ == 'ClassVal':
+        return {'t': 'class', 'cls': v.qual}
     if isinstance(v, SSeq):
         its = items_of(v)
         if v.kind == 'bytes':
@@ -161,9 +165,16 @@ def tree(v, st, seen=None):
     raise SymErr('tree of %r' % (v,))
 
 
-def untree(t, st):
-    """Engine value of an OUTPUT tree; mutable outputs become fresh cells."""
+def untree(t, st, alloc=False):
+    """Engine value of an OUTPUT tree (alloc=True: new mutable objects become heap cells of st / Refs)."""
     k = t['t']
+    if alloc and k == 'obj':
+        rec = {f: untree(x, st, True) for f, x in t['f'].items()}
+        return st.alloc(rec, t['cls'])
+    if alloc and k == 'bytearray':
+        return st.alloc(SSeq.of(bytes.fromhex(t['v'])), 'bytearray')
+    if alloc and k == 'list':
+        return st.alloc(SSeq.of([untree(x, st, True) for x in t['v']], 'list'), 'list')
     if k in ('int', 'bool', 'str'):
         return t['v']
     if k == 'none':
@@ -263,7 +274,7 @@ def judge_concrete(contract, rep, pre, ca):
         if truth_of(cond, E.axioms) is not True:
             failing.append('unexpected exception %s: %s' % (out['exc'], out['exc_msg']))
     else:
-        res = Result('return', untree(out['result'], post))
+        res = Result('return', untree(out['result'], post, alloc=getattr(contract, 'result_is_object', False)))
         for exc, cond in allowed.items():
             if truth_of(cond, E.axioms) is not False:
                 failing.append('must-raise.%s' % exc)
@@ -272,6 +283,9 @@ def judge_concrete(contract, rep, pre, ca):
             for nm, cl in contract.ensures(Kpost, ca, Kpre, res):
                 if truth_of(cl, E.axioms) is False:
                     failing.append('post.' + nm)
+            for j, (ref, want) in enumerate((contract.update(Kpre, ca) or []) if out['exc'] is None else []):
+                if truth_of(V.seq_eq(Kpost.st.seq(ref), want), E.axioms) is False:
+                    failing.append('post.update%d' % j)
         except (SymErr, IndexError, KeyError, TypeError, AttributeError) as e:
             failing.append('post-state has not the contracted shape: %r' % (e,))
     small = {k: _short(t) for k, t in args_tree.items()}
